@@ -235,7 +235,7 @@ fn run_generic<S: Inner + 'static>(ctx: &mut Ctx, prop: &str, w: &World, inner: 
     let mut store = RecStore::new(inner, log.clone());
     store.yields = yields;
     for p in &w.preload { store.inner.put(p.clone()); }
-    let mut auth = Authenticator::new(Aaguid::new_empty(), store, SharedUv { st: uvst.clone(), log: log.clone(), yields });
+    let mut auth = Authenticator::new(Aaguid::from(crate::util::AAGUID), store, SharedUv { st: uvst.clone(), log: log.clone(), yields });
     auth.set_make_credentials_with_signature_counter(w.counter_on);
     auth.set_make_credential_id_length(CredentialIdLength::from(w.id_len));
     if let Some(c) = w.hm.cfg() { auth = auth.hmac_secret(c); }
